@@ -229,6 +229,17 @@ def run_prec(c, rec):
 
 # ----------------------------------------------------------------------------- sub-check 3: GMRF
 
+def zero_sum_vector(dim, kind, c):
+    """a non-zero location whose entries sum to exactly zero (alternating +-c, a centred ramp, two opposite spikes)"""
+    if kind == "alternating" and dim % 2 == 0:
+        return [c if i % 2 == 0 else -c for i in range(dim)]
+    if kind == "ramp":
+        return [c * (i - (dim - 1) / 2.0) for i in range(dim)]
+    v = [0.0] * dim
+    v[0], v[-1] = c, -c
+    return v
+
+
 @st.composite
 def gmrf_cases(draw, tier="quick"):
     pd = draw(st.sampled_from([1, 1, 2]))
@@ -243,9 +254,11 @@ def gmrf_cases(draw, tier="quick"):
         n = 3
         dim = n if pd == 1 else n * n
     fl = st.floats(-3, 3, allow_nan=False, allow_subnormal=False, width=64)
-    mean_kind = draw(st.sampled_from(["zero", "scalar", "vector"]))
+    mean_kind = draw(st.sampled_from(["zero", "scalar", "vector", "zero_sum"]))
     mean = draw(st.lists(fl, min_size=dim, max_size=dim)) if mean_kind == "vector" else \
         (draw(fl) if mean_kind == "scalar" else 0.0)
+    if mean_kind == "zero_sum":
+        mean = zero_sum_vector(dim, draw(st.sampled_from(["alternating", "ramp", "spikes"])), draw(st.sampled_from([0.5, 1.0, 2.0])))
     x = draw(st.lists(fl, min_size=dim, max_size=dim))
     logprec = draw(st.floats(-3, 3, allow_nan=False, width=64))
     return {"pd": pd, "n": n, "bc": bc, "order": order, "mean": mean, "x": x, "prec": float(10 ** logprec)}
@@ -315,6 +328,13 @@ def run_gmrf(c, rec):
     # eigsh / regularised Cholesky inside the library -> relative 1e-6
     require(close(lx - lm, ref_quad, 1e-8), "GMRF quadratic form differs from -prec/2 (x-mean)^T D^T D (x-mean)",
             got=lx - lm, ref=ref_quad)
+    if bc in ("periodic", "neumann") and order >= 1 and np.isfinite(lx):
+        # an intrinsic field's density depends on differences only: a constant added to the field changes nothing (the quadratic
+        # form goes through the difference operator, not through a regularised factor of the precision)
+        for off in (30.0, 1.0e3):
+            lo = float(G.logpdf(x + off))
+            require(abs(lo - lx) <= 1e-9 * max(1.0, abs(lx)) + 1e-10 * delta * off * dim,
+                    f"GMRF(bc={bc}, order={order}): the log-density changes when a constant is added to the field", offset=off, change=lo - lx)
     ref_const = 0.5 * (rank * (np.log(delta) - np.log(2 * np.pi)) + logpdet)
     require(close(lm, ref_const, 1e-6),
             f"GMRF normalising constant is not that of its precision (bc={bc}, order={order}, pd={pd}, n={n}): "
@@ -350,9 +370,11 @@ def lc_cases(draw, tier="quick"):
     bc = draw(st.sampled_from(["zero", "periodic", "neumann"] + (["backward", "none"] if pd == 1 else [])))
     fam = draw(st.sampled_from(["LMRF", "CMRF"]))
     fl = st.floats(-3, 3, allow_nan=False, allow_subnormal=False, width=64)
-    loc_kind = draw(st.sampled_from(["zero", "scalar", "vector"]))
+    loc_kind = draw(st.sampled_from(["zero", "scalar", "vector", "zero_sum"]))
     loc = draw(st.lists(fl, min_size=dim, max_size=dim)) if loc_kind == "vector" else \
         (draw(fl) if loc_kind == "scalar" else 0.0)
+    if loc_kind == "zero_sum":
+        loc = zero_sum_vector(dim, draw(st.sampled_from(["alternating", "ramp", "spikes"])), draw(st.sampled_from([0.5, 1.0, 2.0])))
     scale = float(10 ** draw(st.floats(-2, 2, allow_nan=False, width=64)))
     if draw(st.integers(0, 9)) == 0:
         # several hundred nodes (products of that many densities leave the double range; sums of their logarithms do not):
